@@ -3,6 +3,7 @@
 From KV Require Import Base.Prelude Gen.ErrorCodes Gen.Consts Model.Codecs Model.Requests Model.Responses
                        Model.ClientState Model.Net Model.Client Proofs.C11Facts.
 
+From KV Require Import Proofs.C11Extra.
 (* the table, for every i16 (indeed every integer): 0 is success, the declared range maps
    to the variant of that discriminant, anything else to Unknown; the enum read from
    src/error.rs declares every value of the transmuted range *)
@@ -78,3 +79,154 @@ Print Assumptions C11_commit.
 Print Assumptions C11_fetch.
 Print Assumptions C11_position.
 Print Assumptions C11_call_fails.
+
+Theorem C11_commit_call_fails :
+  forall (f : nat) (group : bytes) (req : res bytes) (attempt : Z) (s : st) (h : bytes) (s1 : st) (corr : Z) (tps : list (bytes * list (Z * Z))) (s2 : st) (c : Z), get_group_coordinator group s = (Ok h, s1) -> send_receive dec_offset_commit_resp h req s1 = (Ok (corr, tps), s2) -> commit_scan tps = ScanFatal c -> commit_loop (S f) group req attempt s = (Err (EKafka c), s2).
+Proof. exact (@C11Extra.C11_commit_call_fails). Qed.
+
+Theorem C11_commit_call_retry_exhausted :
+  forall (f : nat) (group : bytes) (req : res bytes) (attempt : Z) (s : st) (h : bytes) (s1 : st) (corr : Z) (tps : list (bytes * list (Z * Z))) (s2 : st) (code : Z) (reset : bool), get_group_coordinator group s = (Ok h, s1) -> send_receive dec_offset_commit_resp h req s1 = (Ok (corr, tps), s2) -> commit_scan tps = ScanRetry code reset -> retry_max_attempts (cfg (cl s2)) <= attempt -> exists s3 : st, commit_loop (S f) group req attempt s = (Err (EKafka code), s3).
+Proof. exact (@C11Extra.C11_commit_call_retry_exhausted). Qed.
+
+Theorem C11_commit_offsets_ok_clean :
+  forall (group : bytes) (os : list commit_offset) (s s' : st), commit_offsets group os s = (Ok tt, s') -> commit_tps (cs (cl s)) os [] = Some [] \/ (exists (corr : Z) (otps : list (bytes * list (Z * Z))) (h : bytes) (s1 : st) (rc : Z) (tps : list (bytes * list (Z * Z))), commit_tps (cs (cl s)) os [] = Some otps /\ send_receive dec_offset_commit_resp h (enc_offset_commit_req corr (client_id (cfg (cl s))) group (commit_version (offset_storage (cfg (cl s)))) otps) s1 = (Ok (rc, tps), s') /\ codes_zero tps).
+Proof. exact (@C11Extra.C11_commit_offsets_ok_clean). Qed.
+
+Theorem C11_commit_ok_clean :
+  forall (f : nat) (group : bytes) (req : res bytes) (attempt : Z) (s s' : st), commit_loop f group req attempt s = (Ok tt, s') -> exists (h : bytes) (s1 : st) (corr : Z) (tps : list (bytes * list (Z * Z))), send_receive dec_offset_commit_resp h req s1 = (Ok (corr, tps), s') /\ codes_zero tps.
+Proof. exact (@C11Extra.C11_commit_ok_clean). Qed.
+
+Theorem C11_commit_scan_fatal :
+  forall (tps tpre : list (bytes * list (Z * Z))) (t : bytes) (ps : list (Z * Z)) (tpost : list (bytes * list (Z * Z))) (pre : list (Z * Z)) (p e : Z) (post : list (Z * Z)) (c : Z), tps = tpre ++ (t, ps) :: tpost -> codes_zero tpre -> ps = pre ++ (p, e) :: post -> (forall q : Z * Z, In q pre -> snd q = 0) -> from_protocol e = Some c -> c <> KC_GroupLoadInProgress -> c <> KC_NotCoordinatorForGroup -> commit_scan tps = ScanFatal c.
+Proof. exact (@C11Extra.C11_commit_scan_fatal). Qed.
+
+Theorem C11_commit_scan_ok_zero :
+  forall tps : list (bytes * list (Z * Z)), commit_scan tps = ScanOk -> codes_zero tps.
+Proof. exact (@C11Extra.C11_commit_scan_ok_zero). Qed.
+
+Theorem C11_consumer_poll_fails :
+  forall (k : Consumer.consumer) (s : st) (n : Z) (resps : list fetch_resp) (k' : Consumer.consumer) (s1 : st) (pre : list fetch_part) (p : fetch_part) (post : list fetch_part) (c : Z), Consumer.consumer_fetch k s = (Ok (n, Ok resps, k'), s1) -> all_parts resps = pre ++ p :: post -> (forall q : fetch_part, In q pre -> exists d : Z * list message, fp_data q = inl d) -> fp_data p = inr c -> Consumer.consumer_poll k s = (Ok (Err (EKafka c), Consumer.consumer_with_client k' (cl s1)), s1).
+Proof. exact (@C11Extra.C11_consumer_poll_fails). Qed.
+
+Theorem C11_coordinator_fails :
+  forall (f : nat) (group : bytes) (req : res bytes) (attempt : Z) (s : st) (r : coordinator_resp) (s1 : st) (code : Z), group_lookup_attempt req s = (Ok r, s1) -> from_protocol (gc_error r) = Some code -> code <> KC_GroupCoordinatorNotAvailable \/ retry_max_attempts (cfg (cl s1)) <= attempt -> group_lookup_loop (S f) group req attempt s = (Err (EKafka code), s1).
+Proof. exact (@C11Extra.C11_coordinator_fails). Qed.
+
+Theorem C11_coordinator_ok_clean :
+  forall (f : nat) (group : bytes) (req : res bytes) (attempt : Z) (s : st) (h : bytes) (s' : st), group_lookup_loop f group req attempt s = (Ok h, s') -> exists (s0 : st) (r : coordinator_resp) (s1 : st), group_lookup_attempt req s0 = (Ok r, s1) /\ gc_error r = 0 /\ h = fst (set_group_coordinator (cs (cl s1)) group r) /\ cs (cl s') = snd (set_group_coordinator (cs (cl s1)) group r).
+Proof. exact (@C11Extra.C11_coordinator_ok_clean). Qed.
+
+Theorem C11_fetch_group_offsets_ok_clean :
+  forall (group : bytes) (ps : list (bytes * Z)) (s : st) (m : list (bytes * list (Z * Z))) (s' : st), fetch_group_offsets group ps s = (Ok m, s') -> exists (corr : Z) (otps : list (bytes * list Z)) (h : bytes) (s1 : st) (rc : Z) (tps : list (bytes * list offset_fetch_part)), group_fetch_tps (cs (cl s)) ps [] = Some otps /\ send_receive dec_offset_fetch_resp h (enc_offset_fetch_req corr (client_id (cfg (cl s))) group (fetch_version (offset_storage (cfg (cl s)))) otps) s1 = (Ok (rc, tps), s') /\ group_scan tps [] = inl (inl m) /\ (forall (t : bytes) (ps' : list offset_fetch_part) (p : offset_fetch_part), In (t, ps') tps -> In p ps' -> ofp_acceptable p).
+Proof. exact (@C11Extra.C11_fetch_group_offsets_ok_clean). Qed.
+
+Theorem C11_fetch_offsets_fails :
+  forall (topics : list bytes) (time : Z) (s : st) (corr : Z) (s0 : st) (pre : list (bytes * list (bytes * list (Z * Z)))) (h : bytes) (tps : list (bytes * list (Z * Z))) (post : list (bytes * list (bytes * list (Z * Z)))) (s1 : st) (resps : list (list (bytes * list part_offset_resp))) (s2 : st) (rc : Z) (rtps : list (bytes * list part_offset_resp)) (s3 : st) (tpre : list (bytes * list part_offset_resp)) (t : bytes) (ps : list part_offset_resp) (tpost : list (bytes * list part_offset_resp)) (ppre : list part_offset_resp) (p : part_offset_resp) (ppost : list part_offset_resp) (c : Z), next_corr s = (Ok corr, s0) -> ordered (offset_reqs (cs (cl s0)) topics time) s0 = (Ok (pre ++ (h, tps) :: post), s1) -> C10Facts.exchanges (enc_offset_req corr (client_id (cfg (cl s0)))) dec_offset_resp pre s1 resps s2 -> C10Facts.all_conv to_offset (concat resps) -> send_receive dec_offset_resp h (enc_offset_req corr (client_id (cfg (cl s0))) tps) s2 = (Ok (rc, rtps), s3) -> rtps = tpre ++ (t, ps) :: tpost -> (forall (t' : bytes) (ps' : list part_offset_resp), In (t', ps') tpre -> healthy to_offset ps') -> ps = ppre ++ p :: ppost -> healthy to_offset ppre -> from_protocol (por_error p) = Some c -> fetch_offsets topics time s = (Err (ETopicPartition t (por_partition p) c), s3).
+Proof. exact (@C11Extra.C11_fetch_offsets_fails). Qed.
+
+Theorem C11_fetch_offsets_ok_clean :
+  forall (topics : list bytes) (time : Z) (s : st) (m : list (bytes * list (Z * Z))) (s' : st), fetch_offsets topics time s = (Ok m, s') -> exists (corr : Z) (s0 : st) (reqs : list (bytes * list (bytes * list (Z * Z)))) (s1 : st) (resps : list (list (bytes * list part_offset_resp))), next_corr s = (Ok corr, s0) /\ ordered (offset_reqs (cs (cl s0)) topics time) s0 = (Ok reqs, s1) /\ C10Facts.exchanges (enc_offset_req corr (client_id (cfg (cl s0)))) dec_offset_resp reqs s1 resps s' /\ (forall (t : bytes) (ps : list part_offset_resp) (p : part_offset_resp), In (t, ps) (concat resps) -> In p ps -> por_error p = 0).
+Proof. exact (@C11Extra.C11_fetch_offsets_ok_clean). Qed.
+
+Theorem C11_fetch_topic_offsets_fails :
+  forall (topic : bytes) (time : Z) (s : st) (e : err) (s' : st), fetch_offsets [topic] time s = (Err e, s') -> fetch_topic_offsets topic time s = (Err e, s').
+Proof. exact (@C11Extra.C11_fetch_topic_offsets_fails). Qed.
+
+Theorem C11_group_fetch_call_fails :
+  forall (f : nat) (group : bytes) (req : res bytes) (attempt : Z) (s : st) (h : bytes) (s1 : st) (corr : Z) (tps : list (bytes * list offset_fetch_part)) (s2 : st) (c : Z), get_group_coordinator group s = (Ok h, s1) -> send_receive dec_offset_fetch_resp h req s1 = (Ok (corr, tps), s2) -> group_scan tps [] = inr c -> group_fetch_loop (S f) group req attempt s = (Err (EKafka c), s2).
+Proof. exact (@C11Extra.C11_group_fetch_call_fails). Qed.
+
+Theorem C11_group_fetch_ok_clean :
+  forall (f : nat) (group : bytes) (req : res bytes) (attempt : Z) (s : st) (m : list (bytes * list (Z * Z))) (s' : st), group_fetch_loop f group req attempt s = (Ok m, s') -> exists (h : bytes) (s1 : st) (corr : Z) (tps : list (bytes * list offset_fetch_part)), send_receive dec_offset_fetch_resp h req s1 = (Ok (corr, tps), s') /\ group_scan tps [] = inl (inl m) /\ (forall (t : bytes) (ps : list offset_fetch_part) (p : offset_fetch_part), In (t, ps) tps -> In p ps -> ofp_acceptable p).
+Proof. exact (@C11Extra.C11_group_fetch_ok_clean). Qed.
+
+Theorem C11_group_scan_fatal :
+  forall (tps : list (bytes * list offset_fetch_part)) (m : list (bytes * list (Z * Z))) (tpre : list (bytes * list offset_fetch_part)) (t : bytes) (ps : list offset_fetch_part) (tpost : list (bytes * list offset_fetch_part)) (pre : list offset_fetch_part) (p : offset_fetch_part) (post : list offset_fetch_part) (c : Z), tps = tpre ++ (t, ps) :: tpost -> (forall (t' : bytes) (ps' : list offset_fetch_part), In (t', ps') tpre -> healthy get_offsets ps') -> ps = pre ++ p :: post -> healthy get_offsets pre -> from_protocol (ofp_error p) = Some c -> c <> KC_UnknownTopicOrPartition -> c <> KC_GroupLoadInProgress -> c <> KC_NotCoordinatorForGroup -> group_scan tps m = inr c.
+Proof. exact (@C11Extra.C11_group_scan_fatal). Qed.
+
+Theorem C11_group_scan_ok_acceptable :
+  forall (tps : list (bytes * list offset_fetch_part)) (m m' : list (bytes * list (Z * Z))), group_scan tps m = inl (inl m') -> forall (t : bytes) (ps : list offset_fetch_part) (p : offset_fetch_part), In (t, ps) tps -> In p ps -> ofp_acceptable p.
+Proof. exact (@C11Extra.C11_group_scan_ok_acceptable). Qed.
+
+Theorem C11_group_scan_parts_fatal :
+  forall (ps : list offset_fetch_part) (acc : list (Z * Z)) (pre : list offset_fetch_part) (p : offset_fetch_part) (post : list offset_fetch_part) (c : Z), ps = pre ++ p :: post -> healthy get_offsets pre -> get_offsets p = inr c -> c <> KC_GroupLoadInProgress -> c <> KC_NotCoordinatorForGroup -> group_scan_parts ps acc = GFatal c.
+Proof. exact (@C11Extra.C11_group_scan_parts_fatal). Qed.
+
+Theorem C11_iterate_no_failed :
+  forall (ms : Consumer.message_sets) (t : bytes) (pid : Z) (msgs : list message), In (t, pid, msgs) (Consumer.iterate ms) -> exists (r : fetch_resp) (ft : fetch_topic) (fp : fetch_part) (hw : Z), In r (Consumer.ms_responses ms) /\ In ft (fr_topics r) /\ In fp (ft_partitions ft) /\ ft_topic ft = t /\ fp_partition fp = pid /\ fp_data fp = inl (hw, msgs).
+Proof. exact (@C11Extra.C11_iterate_no_failed). Qed.
+
+Theorem C11_list_offsets_fails :
+  forall (topics : list bytes) (time : Z) (s : st) (corr : Z) (s0 : st) (pre : list (bytes * list (bytes * list (Z * Z)))) (h : bytes) (tps : list (bytes * list (Z * Z))) (post : list (bytes * list (bytes * list (Z * Z)))) (s1 : st) (resps : list (list (bytes * list list_offset_part))) (s2 : st) (rc : Z) (rtps : list (bytes * list list_offset_part)) (s3 : st) (tpre : list (bytes * list list_offset_part)) (t : bytes) (ps : list list_offset_part) (tpost : list (bytes * list list_offset_part)) (ppre : list list_offset_part) (p : list_offset_part) (ppost : list list_offset_part) (c : Z), next_corr s = (Ok corr, s0) -> ordered (offset_reqs (cs (cl s0)) topics time) s0 = (Ok (pre ++ (h, tps) :: post), s1) -> C10Facts.exchanges (enc_list_offsets_req corr (client_id (cfg (cl s0)))) dec_list_offsets_resp pre s1 resps s2 -> C10Facts.all_conv lop_to_offset (concat resps) -> send_receive dec_list_offsets_resp h (enc_list_offsets_req corr (client_id (cfg (cl s0))) tps) s2 = (Ok (rc, rtps), s3) -> rtps = tpre ++ (t, ps) :: tpost -> (forall (t' : bytes) (ps' : list list_offset_part), In (t', ps') tpre -> healthy lop_to_offset ps') -> ps = ppre ++ p :: ppost -> healthy lop_to_offset ppre -> from_protocol (lop_error p) = Some c -> list_offsets topics time s = (Err (ETopicPartition t (lop_partition p) c), s3).
+Proof. exact (@C11Extra.C11_list_offsets_fails). Qed.
+
+Theorem C11_merge_fails :
+  forall (P V : Type) (conv : P -> V + Z) (pid : P -> Z) (tps : list (bytes * list P)) (m : list (bytes * list V)) (tpre : list (bytes * list P)) (t : bytes) (ps : list P) (tpost : list (bytes * list P)) (ppre : list P) (p : P) (ppost : list P) (c : Z), tps = tpre ++ (t, ps) :: tpost -> (forall (t' : bytes) (ps' : list P), In (t', ps') tpre -> healthy conv ps') -> ps = ppre ++ p :: ppost -> healthy conv ppre -> conv p = inr c -> merge_topics conv pid tps m = Err (ETopicPartition t (pid p) c).
+Proof. exact (@C11Extra.C11_merge_fails). Qed.
+
+Theorem C11_offsets_exchange_fails :
+  forall (P V : Type) (enc : list (bytes * list (Z * Z)) -> res bytes) (d : dec (Z * list (bytes * list P))) (conv : P -> V + Z) (pid : P -> Z) (pre : list (bytes * list (bytes * list (Z * Z)))) (h : bytes) (tps : list (bytes * list (Z * Z))) (post : list (bytes * list (bytes * list (Z * Z)))) (m : list (bytes * list V)) (s : st) (resps : list (list (bytes * list P))) (s1 : st) (corr : Z) (rtps : list (bytes * list P)) (s2 : st) (tpre : list (bytes * list P)) (t : bytes) (ps : list P) (tpost : list (bytes * list P)) (ppre : list P) (p : P) (ppost : list P) (c : Z), C10Facts.exchanges enc d pre s resps s1 -> C10Facts.all_conv conv (concat resps) -> send_receive d h (enc tps) s1 = (Ok (corr, rtps), s2) -> rtps = tpre ++ (t, ps) :: tpost -> (forall (t' : bytes) (ps' : list P), In (t', ps') tpre -> healthy conv ps') -> ps = ppre ++ p :: ppost -> healthy conv ppre -> conv p = inr c -> offsets_exchange enc d conv pid (pre ++ (h, tps) :: post) m s = (Err (ETopicPartition t (pid p) c), s2).
+Proof. exact (@C11Extra.C11_offsets_exchange_fails). Qed.
+
+Theorem C11_offsets_exchange_ok_clean :
+  forall (P V : Type) (enc : list (bytes * list (Z * Z)) -> res bytes) (d : dec (Z * list (bytes * list P))) (conv : P -> V + Z) (pid : P -> Z) (reqs : list (bytes * list (bytes * list (Z * Z)))) (m : list (bytes * list V)) (s : st) (m' : list (bytes * list V)) (s' : st), offsets_exchange enc d conv pid reqs m s = (Ok m', s') -> exists resps : list (list (bytes * list P)), C10Facts.exchanges enc d reqs s resps s' /\ C10Facts.all_conv conv (concat resps).
+Proof. exact (@C11Extra.C11_offsets_exchange_ok_clean). Qed.
+
+Theorem C11_poll_fails :
+  forall (dbg : bool) (k : Consumer.consumer) (n : Z) (resps : list fetch_resp) (pre : list fetch_part) (p : fetch_part) (post : list fetch_part) (c : Z), all_parts resps = pre ++ p :: post -> (forall q : fetch_part, In q pre -> exists d : Z * list message, fp_data q = inl d) -> fp_data p = inr c -> Consumer.process_fetch_responses dbg k n resps = (Err (EKafka c), k).
+Proof. exact (@C11Extra.C11_poll_fails). Qed.
+
+Theorem C11_poll_ok_clean :
+  forall (dbg : bool) (k : Consumer.consumer) (n : Z) (resps : list fetch_resp) (ms : Consumer.message_sets) (k' : Consumer.consumer), Consumer.process_fetch_responses dbg k n resps = (Ok ms, k') -> Consumer.ms_responses ms = resps /\ (forall p : fetch_part, In p (all_parts resps) -> exists d : Z * list message, fp_data p = inl d).
+Proof. exact (@C11Extra.C11_poll_ok_clean). Qed.
+
+Theorem C11_produce_exchange_reports :
+  forall (corr acks timeout : Z) (h : bytes) (tps : produce_tps) (r : list (bytes * produce_tps)) (acc : list confirm) (s : st) (rc : Z) (rtps : list (bytes * list produce_part)) (s1 : st) (cf : list confirm) (s' : st) (t : bytes) (ps : list produce_part) (pp : produce_part) (c : Z), acks <> 0 -> send_receive dec_produce_resp h (enc_produce_req (env s) corr (client_id (cfg (cl s))) acks timeout (compression (cfg (cl s))) tps) s = (Ok (rc, rtps), s1) -> produce_exchange corr acks timeout ((h, tps) :: r) acc s = (Ok cf, s') -> In (t, ps) rtps -> In pp ps -> from_protocol (pp_error pp) = Some c -> exists pcs : list (Z * (Z + Z)), In (t, pcs) cf /\ In (pp_partition pp, inr c) pcs.
+Proof. exact (@C11Extra.C11_produce_exchange_reports). Qed.
+
+Theorem C11_send_all_confirms :
+  forall (p : Producer.producer) (recs : list Producer.record) (s : st) (corr : Z) (s0 : st) (reqs : list (bytes * produce_tps)) (cntr' : Z) (h : bytes) (tps : produce_tps) (s1 : st) (rc : Z) (rtps : list (bytes * list produce_part)) (s2 : st), Producer.p_acks p <> 0 -> next_corr s = (Ok corr, s0) -> Producer.send_all_reqs (cs (cl s0)) (Producer.p_parts p) (Producer.p_cntr p) recs [] = (Some reqs, cntr') -> ordered reqs s0 = (Ok [(h, tps)], s1) -> send_receive dec_produce_resp h (enc_produce_req (env s1) corr (client_id (cfg (cl s1))) (Producer.p_acks p) (Producer.p_ack_timeout p) (compression (cfg (cl s1))) tps) s1 = (Ok (rc, rtps), s2) -> Producer.producer_send_all p recs s = (Ok (map (fun '(t, ps) => (t, map produce_confirm ps)) rtps, Producer.producer_set_cntr p cntr'), s2).
+Proof. exact (@C11Extra.C11_send_all_confirms). Qed.
+
+Theorem C11_send_broker_error :
+  forall (p : Producer.producer) (r : Producer.record) (s : st) (corr : Z) (s0 : st) (reqs : list (bytes * produce_tps)) (cntr' : Z) (h : bytes) (tps : produce_tps) (s1 : st) (rc : Z) (t : bytes) (pp : produce_part) (s2 : st) (c : Z), Producer.p_acks p <> 0 -> next_corr s = (Ok corr, s0) -> Producer.send_all_reqs (cs (cl s0)) (Producer.p_parts p) (Producer.p_cntr p) [r] [] = (Some reqs, cntr') -> ordered reqs s0 = (Ok [(h, tps)], s1) -> send_receive dec_produce_resp h (enc_produce_req (env s1) corr (client_id (cfg (cl s1))) (Producer.p_acks p) (Producer.p_ack_timeout p) (compression (cfg (cl s1))) tps) s1 = (Ok (rc, [(t, [pp])]), s2) -> from_protocol (pp_error pp) = Some c -> Producer.producer_send p r s = (Err (EKafka c), s2).
+Proof. exact (@C11Extra.C11_send_broker_error). Qed.
+
+Theorem C11_send_fails :
+  forall (p : Producer.producer) (r : Producer.record) (s : st) (t : bytes) (part code : Z) (p' : Producer.producer) (s' : st), Producer.p_acks p <> 0 -> Producer.producer_send_all p [r] s = (Ok ([(t, [(part, inr code)])], p'), s') -> Producer.producer_send p r s = (Err (EKafka code), s').
+Proof. exact (@C11Extra.C11_send_fails). Qed.
+
+Theorem C11_send_ok_confirmed :
+  forall (p : Producer.producer) (r : Producer.record) (s : st) (p' : Producer.producer) (s' : st), Producer.p_acks p <> 0 -> Producer.producer_send p r s = (Ok p', s') -> exists (t : bytes) (part off : Z), Producer.producer_send_all p [r] s = (Ok ([(t, [(part, inl off)])], p'), s').
+Proof. exact (@C11Extra.C11_send_ok_confirmed). Qed.
+
+Print Assumptions C11_commit_call_fails.
+Print Assumptions C11_commit_call_retry_exhausted.
+Print Assumptions C11_commit_offsets_ok_clean.
+Print Assumptions C11_commit_ok_clean.
+Print Assumptions C11_commit_scan_fatal.
+Print Assumptions C11_commit_scan_ok_zero.
+Print Assumptions C11_consumer_poll_fails.
+Print Assumptions C11_coordinator_fails.
+Print Assumptions C11_coordinator_ok_clean.
+Print Assumptions C11_fetch_group_offsets_ok_clean.
+Print Assumptions C11_fetch_offsets_fails.
+Print Assumptions C11_fetch_offsets_ok_clean.
+Print Assumptions C11_fetch_topic_offsets_fails.
+Print Assumptions C11_group_fetch_call_fails.
+Print Assumptions C11_group_fetch_ok_clean.
+Print Assumptions C11_group_scan_fatal.
+Print Assumptions C11_group_scan_ok_acceptable.
+Print Assumptions C11_group_scan_parts_fatal.
+Print Assumptions C11_iterate_no_failed.
+Print Assumptions C11_list_offsets_fails.
+Print Assumptions C11_merge_fails.
+Print Assumptions C11_offsets_exchange_fails.
+Print Assumptions C11_offsets_exchange_ok_clean.
+Print Assumptions C11_poll_fails.
+Print Assumptions C11_poll_ok_clean.
+Print Assumptions C11_produce_exchange_reports.
+Print Assumptions C11_send_all_confirms.
+Print Assumptions C11_send_broker_error.
+Print Assumptions C11_send_fails.
+Print Assumptions C11_send_ok_confirmed.
